@@ -324,10 +324,10 @@ def badClassNames : List String := ["blobDownload.Total", "blobDownload.done", "
 def lockRefNames : List String := ["g:Scheduler.loadedMu", "s:blobDownloadPart.lastUpdatedMu", "s:runnerRef.refMu"]
 /-- (held, acquired) for every site that takes a mutex while holding another one; acquisitions on or under a fresh
     (unpublished) object's mutex are listed separately: they cannot be contended -/
-def lockOrderEdges : List (Nat × Nat) := [(0, 2)]
+def lockOrderEdges : List (Nat × Nat) := [(0, 2), (2, 0)]
 def lockOrderFreshEdges : List (Nat × Nat) := [(2, 0)]
 /-- the translator's topological rank of each mutex class (all 0 when it found a cycle) -/
-def lockRank : List Nat := [1, 1, 2]
-def lockOrderSites : List String := ["g:Scheduler.loadedMu -> s:runnerRef.refMu at Scheduler.expireRunner:840 fresh=false", "g:Scheduler.loadedMu -> s:runnerRef.refMu at Scheduler.processCompleted:369 fresh=false", "g:Scheduler.loadedMu -> s:runnerRef.refMu at Scheduler.updateFreeSpace:502 fresh=false", "s:runnerRef.refMu -> g:Scheduler.loadedMu at Scheduler.load:468 fresh=true"]
+def lockRank : List Nat := [0, 0, 0]
+def lockOrderSites : List String := ["g:Scheduler.loadedMu -> s:runnerRef.refMu at Scheduler.expireRunner:840 fresh=false", "g:Scheduler.loadedMu -> s:runnerRef.refMu at Scheduler.updateFreeSpace:502 fresh=false", "s:runnerRef.refMu -> g:Scheduler.loadedMu at Scheduler.load:468 fresh=true", "s:runnerRef.refMu -> g:Scheduler.loadedMu at Scheduler.processCompleted:369 fresh=false"]
 
 end OllamaVerif.Generated.C15
